@@ -153,8 +153,9 @@ def run_space(binary, space, tier, nshards=None, hang_s=30.0, as_bytes=0, env=No
     def cur_idx(w):
         try:
             with open(w.prog, "rb") as f:
-                b = f.read(8)
-            return struct.unpack("<Q", b)[0]
+                b = f.read(16)
+            w.beat = b[8:16]
+            return struct.unpack("<Q", b[:8])[0]
         except Exception:
             return None
 
@@ -183,8 +184,8 @@ def run_space(binary, space, tier, nshards=None, hang_s=30.0, as_bytes=0, env=No
             idx = cur_idx(w)
             now = time.time()
             if rc is None:
-                if idx != w.last:
-                    w.last, w.last_t = idx, now
+                if (idx, getattr(w, "beat", b"")) != w.last:
+                    w.last, w.last_t = (idx, getattr(w, "beat", b"")), now
                 elif hang_s and now - w.last_t > hang_s and idx is not None and idx < (1 << 64) - 2:
                     w.p.kill()
                     w.p.wait()
